@@ -417,6 +417,7 @@ fn replay(path: &str) -> i32 {
     let res = match v["engine"].as_str().unwrap_or("") {
         "pratt" => eng_pratt::replay(&v),
         "text" => eng_text::replay(&v),
+        "pulls" => Err("re-run ./check C20 (the pull-budgets unit takes under a second)".into()),
         "text-totality" => Err("re-run ./check C20 (the text-totality unit is a few seconds)".into()),
         "nested" => eng_nested::replay(&v),
         "drops" => eng_drops::replay(&v),
